@@ -259,10 +259,10 @@ func runC02(r *core.Run) {
 		mu.Unlock()
 	}
 	if r.Variant == "" {
-		for _, v := range []string{"decfirst", "decfirst+rev"} {
+		for _, v := range []string{"decfirst@3", "decfirst+rev@1", "rev@6"} {
 			r.RunVariantChild(v, 10*time.Minute, false)
 		}
-		r.Obs("fresh_process_variants", []string{"decfirst", "decfirst+rev"})
+		r.Obs("fresh_process_variants", []string{"decfirst@3", "decfirst+rev@1", "rev@6"})
 	}
 	r.Obs("distinct_code_side_pairs_per_encoder", codesSeen)
 	r.Obs("quick_points_per_encoder", len(pts))
